@@ -45,6 +45,7 @@ case_strategy = st.fixed_dictionaries({
     "relation": st.sampled_from(["shift", "shift", "scale", "none"]),
     "shift": st.sampled_from([1.0, 100.0, -1000.0, 1e4]),
     "k": st.sampled_from([-3.0, -1.0, 0.5, 2.0, 7.0]),
+    "files": st.sampled_from(["none", "none", "plain", "compressed"]),
 })
 
 
@@ -81,7 +82,12 @@ def write_image(c, img, path):
     cube = rng.normal(size=(planes,) + img.shape) * 50 + 7      # other planes hold unrelated data
     cube[ci] = raw
     arr = cube[0] if c["ndim"] == 2 else (cube if c["ndim"] == 3 else cube[None])
-    fits.PrimaryHDU(arr.astype(np.float64)).writeto(path, overwrite=True)
+    hdu = fits.PrimaryHDU(arr.astype(np.float64))
+    # minimal celestial WCS (the compressed output files need CDELT/CRPIX to describe their decimated grid)
+    for k, v in (("CTYPE1", "RA---SIN"), ("CTYPE2", "DEC--SIN"), ("CRVAL1", 50.0), ("CRVAL2", -20.0),
+                 ("CRPIX1", img.shape[1] / 2.0), ("CRPIX2", img.shape[0] / 2.0), ("CDELT1", -0.005), ("CDELT2", 0.005)):
+        hdu.header[k] = v
+    hdu.writeto(path, overwrite=True)
     if bs:
         with fits.open(path, mode="update", do_not_scale_image_data=True) as hl:
             hl[0].header["BSCALE"] = bs
@@ -92,9 +98,9 @@ def write_image(c, img, path):
     return plane, ci
 
 
-def run_bane(path, c, ci, grid, box, cores, stripes):
-    return BANE.filter_image(path, out_base=None, step_size=(grid, grid), box_size=(box, box), cores=cores,
-                             nslice=stripes, mask=c["mask"], cube_index=ci)
+def run_bane(path, c, ci, grid, box, cores, stripes, out_base=None, compressed=False):
+    return BANE.filter_image(path, out_base=out_base, step_size=(grid, grid), box_size=(box, box), cores=cores,
+                             nslice=stripes, mask=c["mask"], cube_index=ci, compressed=compressed)
 
 
 def check_case(c):
@@ -109,7 +115,11 @@ def check_case(c):
     try:
         path = os.path.join(d, "im.fits")
         plane, ci = write_image(c, img, path)
-        out = run_bane(path, c, ci, grid, box, cores, stripes)
+        files = c.get("files", "none")
+        if c["ndim"] != 2:
+            files = "none"            # the output header is the input header: only 2-D inputs give 2-D files
+        out_base = os.path.join(d, "out") if files != "none" else None
+        out = run_bane(path, c, ci, grid, box, cores, stripes, out_base=out_base, compressed=(files == "compressed"))
         if out is None:
             res.bad("returned-none", "filter_image returned None")
             return res
@@ -165,6 +175,46 @@ def check_case(c):
                 res.bad("gaussian-rms", "%s: N(%g,1) image: noise/s in [%.3g, %.3g]" % (what, m, float(rms.min()), float(rms.max())), **tags)
             res.label("gaussian-clause")
             res.stat("gauss_rms_ratio_minus_1", float(np.max(np.abs(rms - 1))))
+        # ---- the *_bkg.fits / *_rms.fits files hold the returned maps
+        if out_base is not None:
+            from AegeanTools import fits_tools
+            bs = c["bscale"] or 1.0
+            for name, arr in (("bkg", bkg), ("rms", rms)):
+                fn = "%s_%s.fits" % (out_base, name)
+                if not os.path.exists(fn):
+                    res.bad("output-file-missing", "%s: %s was not written" % (what, os.path.basename(fn)), **tags)
+                    continue
+                if files == "plain":
+                    with fits.open(fn, do_not_scale_image_data=True) as hl:
+                        raw = np.asarray(hl[0].data, dtype=np.float64)
+                    if raw.shape != arr.shape or not np.allclose(raw * bs, arr, rtol=2e-6, atol=1e-30, equal_nan=True):
+                        res.bad("output-file-values", "%s: %s does not hold the returned %s map (/BSCALE)" % (
+                            what, os.path.basename(fn), name), **tags)
+                else:
+                    hdr_c = fits.getheader(fn)
+                    if not fits_tools.is_compressed(hdr_c):
+                        res.bad("output-file-not-compressed", "%s: compressed=True but %s has no BN_ keywords" % (
+                            what, os.path.basename(fn)), **tags)
+                        continue
+                    ex = np.asarray(fits_tools.expand(fn)[0].data, dtype=np.float64)
+                    if ex.shape != arr.shape:
+                        res.bad("output-file-shape", "%s: expanded %s has shape %r, the map %r" % (
+                            what, os.path.basename(fn), ex.shape, arr.shape), **tags)
+                    elif not nonfin.any() and c["kind"] != "constant":
+                        # BANE maps are linear between grid nodes: the compressed file must expand back to the map on
+                        # all complete cells
+                        rl = ((c["rows"] - 1) // grid) * grid
+                        cl = ((c["cols"] - 1) // grid) * grid
+                        a_, b_ = ex[:rl + 1, :cl + 1], arr[:rl + 1, :cl + 1]     # (astropy applies the BSCALE card on read)
+                        if cores > 1 and (stripes or 1) > 1:
+                            # with several stripes the two stripes meeting at a boundary row each have their own node value
+                            # there, so the map is not linear across that cell: only the grid nodes themselves are compared
+                            a_, b_ = a_[::grid, ::grid], b_[::grid, ::grid]
+                        t_ = 1e-5 * max(scale, 1.0)
+                        if not np.all(np.abs(a_ - b_) <= t_):
+                            res.bad("compressed-file-values", "%s: expanding %s differs from the returned map by %.3g on "
+                                    "complete grid cells" % (what, os.path.basename(fn), float(np.max(np.abs(a_ - b_)))), **tags)
+            res.label("files-" + files)
         # ---- metamorphic relations (continuous-valued data only)
         if c["kind"] != "constant" and c["relation"] != "none":
             if c["relation"] == "shift":
